@@ -46,7 +46,7 @@ def verifier_trace(spec, tier, variant, obligation, timeout=600):
                '--property', obligation] + [f for f in spec['cbmc_flags']] + [b['gb']]
         if spec['mode'] == 'bounded':
             cmd += ['--unwind', str(spec['unwind'])]
-        rc, out, err, w = prove.run(cmd, timeout, spec['memlimit_gb'] or 16, cwd=workdir)
+        rc, out, err, w = prove.run(cmd, timeout, spec['memlimit_gb'] or 10, cwd=workdir)
         if rc is None:
             return 'cbmc --trace timed out after %ds' % timeout
         i = out.find('Trace for')
